@@ -2,6 +2,7 @@ package checks
 
 import (
 	"fmt"
+	"math"
 	"math/big"
 	"strings"
 
@@ -88,6 +89,9 @@ type GenOut struct {
 	HasPw   bool
 	Panic   string
 	Aborted bool
+	Atoms   []string // Tokens().Atoms()
+	Seps    []string // Tokens().Separators()
+	Raw     *spg.Password
 }
 
 // Key is a canonical rendering of the token sequence.
@@ -135,6 +139,9 @@ func runGen(g func() (*spg.Password, error)) (o GenOut) {
 		o.Toks = toToks(p.Tokens())
 		o.Str = p.String()
 		o.Entropy = p.Entropy
+		o.Atoms = p.Tokens().Atoms()
+		o.Seps = p.Tokens().Separators()
+		o.Raw = p
 	}
 	return o
 }
@@ -282,20 +289,21 @@ func runScript(g func() (*spg.Password, error), words []uint32) (GenOut, *tape.T
 
 // Dist is an exact output distribution.
 type Dist struct {
-	Mass     map[string]*big.Rat // per returned token sequence
-	ErrMass  *big.Rat            // executions that returned an error
-	CutMass  *big.Rat            // executions aborted at the depth cut
-	PanMass  *big.Rat
-	Leaves   map[string]int64
-	Example  map[string][]uint32 // one outcome vector per output
-	ErrEx    []uint32
-	PanicMsg string
-	PanicEx  []uint32
+	Mass      map[string]*big.Rat // per returned token sequence
+	ErrMass   *big.Rat            // executions that returned an error
+	CutMass   *big.Rat            // executions aborted at the depth cut
+	PanMass   *big.Rat
+	Leaves    map[string]int64
+	Entropies map[uint32]int64    // bit patterns of Password.Entropy seen
+	Example   map[string][]uint32 // one outcome vector per output
+	ErrEx     []uint32
+	PanicMsg  string
+	PanicEx   []uint32
 }
 
 func newDist() *Dist {
 	return &Dist{Mass: map[string]*big.Rat{}, ErrMass: new(big.Rat), CutMass: new(big.Rat), PanMass: new(big.Rat),
-		Leaves: map[string]int64{}, Example: map[string][]uint32{}}
+		Leaves: map[string]int64{}, Example: map[string][]uint32{}, Entropies: map[uint32]int64{}}
 }
 
 func (d *Dist) add(l *Leaf) {
@@ -315,6 +323,7 @@ func (d *Dist) add(l *Leaf) {
 		}
 	default:
 		k := tokKey(l.Out.Toks)
+		d.Entropies[math.Float32bits(l.Out.Entropy)]++
 		m := d.Mass[k]
 		if m == nil {
 			m = new(big.Rat)
